@@ -378,3 +378,53 @@ def fork_shapes():
                f"-kill{kill}-pre{pre}-post{post}")
         out.append((tag, Seq(tuple(items))))
     return out
+
+
+def break_branch_shapes():
+    """Exhaustive family for richer break decisions (outside fragment F, in
+    which break branches are plain events):  A; repeat{B; XOR{cont | brk
+    break}; [E]}; F; [G]  with cont in {event, AND fork, OR fork}, brk in
+    {X; X,Y; AND{X|Y},Z; OR{X|Y},Z; loop{X,Y}; X,loop{Y}}, the whole at top
+    level or as the body of an outer loop, with or without E and G."""
+    import itertools
+    out = []
+    for cont, brk, nested, tail, post2 in itertools.product(
+            ("ev", "AND", "OR"),
+            ("x", "xy", "ANDz", "ORz", "loop", "xloop"),
+            (0, 1), (0, 1), (0, 1)):
+        n = [0]
+
+        def ev():
+            n[0] += 1
+            return Ev(f"E{n[0]}")
+        a = ev()
+        b = ev()
+        if cont == "ev":
+            c = [ev()]
+        else:
+            c = [Fork(cont, (Seq((ev(),)), Seq((ev(),))))]
+            if not tail:
+                c.append(ev())      # keep the fork off the end of the body
+        if brk == "x":
+            br = [ev()]
+        elif brk == "xy":
+            br = [ev(), ev()]
+        elif brk in ("ANDz", "ORz"):
+            br = [Fork(brk[:-1], (Seq((ev(),)), Seq((ev(),)))), ev()]
+        elif brk == "loop":
+            br = [Loop(Seq((ev(), ev())))]
+        else:
+            br = [ev(), Loop(Seq((ev(),)))]
+        body = [b, Fork("XOR", (Seq(tuple(c)), Seq(tuple(br + [Break()]))))]
+        if tail:
+            body.append(ev())
+        inner = [Loop(Seq(tuple(body))), ev()]
+        if post2:
+            inner.append(ev())
+        if nested:
+            items = [a, Loop(Seq(tuple([ev()] + inner))), ev()]
+        else:
+            items = [a] + inner
+        out.append((f"cont{cont}-brk{brk}-nested{nested}-tail{tail}-"
+                    f"post{post2}", Seq(tuple(items))))
+    return out
